@@ -37,8 +37,9 @@ Property search (direct, oracle = the implementation compared with itself under 
   generated programs are checked (i) in fresh subprocesses under several PYTHONHASHSEED values, (ii) several
   times in one process, (iii) after histories of other generated programs with one shared Checker; rendered
   diagnostics (line, column, code, full text, module tokens normalised, sorted by position only) must be equal.
-Classes still open in /repo: tryDefNodeOrder, defNodeSetOrder (order), cacheUnderFailedAssumption (history); the
-classes repaired since (… typeObjectStr 99947e4, inSetLiteralOrder c06bd97) are not accepted any more. The six
+Classes still open in /repo: tryDefNodeOrder, defNodeSetOrder (order), cyclicBoundsOrder (history: member order of a
+solved type variable in recursive generic protocols). Every other class has been repaired in /repo
+(… typeObjectStr 99947e4, inSetLiteralOrder c06bd97, cacheUnderFailedAssumption 5ad1557) and is not accepted any more. The six
 classes repaired by a944eb3, 24b231d, da6a3f3, 5fee81d, e01ac16 are no longer accepted: a re-appearance is a new
 violation (their witnesses stay in corpus/C10.jsonl).
 """
@@ -49,7 +50,8 @@ from harness.common import lean, pya
 PROP = "C10"
 LEAN_PROP = "PyaModel.Props.C10"
 NAMESPACE = "Pya.C10"
-LEAN_TARGETS = ["PyaModel.Spec.CacheSpec", "PyaModel.Generated.SetSites", "PyaModel.Generated.CacheSites"]
+LEAN_TARGETS = ["PyaModel.Spec.CacheSpec", "PyaModel.Generated.SetSites", "PyaModel.Generated.CacheSites",
+                "PyaModel.Generated.CacheVariant"]
 CACHE_FILES = ["pyanalyze/checker.py", "pyanalyze/arg_spec.py", "pyanalyze/type_object.py", "pyanalyze/typeshed.py",
                "pyanalyze/reexport.py", "pyanalyze/suggested_type.py"]
 SCAN_FILES = [
@@ -126,9 +128,14 @@ ASSUMPTIONS = [
     "(KeyDetermines); the generated programs never vary them",
     "the model's fuel (number of (protocol, class) pairs + 2) stands for Python's unbounded recursion, which the "
     "recursion guard stops after at most that many nested calls",
-    "which variant of the protocol cache key the implementation has (/repo: value + mode + generic arguments, cached "
-    "also under assumptions = model `check`) is read off the source of TypeObject.can_assign; for any other variant "
-    "the Lean driver runs the matching `check2` and accepts no class",
+    "which variant of the protocol cache the implementation has (/repo: key = value + mode + generic arguments, stored "
+    "only while no assumption is in force) is read off the source of TypeObject.can_assign by translate "
+    "(Generated/CacheVariant.lean; `check` follows the flag, `cache_variant_is_repaired` pins it); for any other "
+    "variant the Lean driver runs the matching `check2`; no history class is accepted",
+    "in recursive protocol worlds the bounds map (not the verdict) still depends on the history — the guard answers {} "
+    "where a cache hit answers the stored map (`cyclic_bounds_map_depends_on_history_witness`); implementation and "
+    "model agree on it (stream proto); the generated programs with reveal_type of a solved type variable stay in "
+    "well-founded worlds, so whether it can surface in a diagnostic is not searched",
 ]
 TRUSTED = [
     "Spec/CacheSpec.lean: `gfpCompat`/`sem` are validated against fresh answers of the implementation on every run (stream spec)",
@@ -640,6 +647,20 @@ def translate(ctx):
         "end Pya.C10.Gen\n"
     )
     lean.write_if_changed(os.path.join(lean.LEAN, "PyaModel", "Generated", "CacheSites.lean"), text)
+    v = impl_variant()
+    text = (
+        "/-! Regenerated by harness/props/c10.py `translate` from the live source of\n"
+        "`pyanalyze/type_object.py` `TypeObject.can_assign`; do not edit. -/\n"
+        "namespace Pya.C10.Gen\n\n"
+        "/-- The cache key of `_protocol_positive_cache` contains `ctx.should_exclude_any()`. -/\n"
+        "def cacheModeKey : Bool := %s\n\n"
+        "/-- The cache key contains `self_val` (the generic arguments of the protocol). -/\n"
+        "def cacheArgKey : Bool := %s\n\n"
+        "/-- A positive answer is stored only when `not ctx.has_assumed_compatibilities()`. -/\n"
+        "def cacheTopOnly : Bool := %s\n\n"
+        "end Pya.C10.Gen\n" % tuple("true" if c == "1" else "false" for c in v)
+    )
+    lean.write_if_changed(os.path.join(lean.LEAN, "PyaModel", "Generated", "CacheVariant.lean"), text)
 
 
 # ============================================================================================ running pyanalyze
@@ -1549,9 +1570,9 @@ def gen_programs(ctx, worlds):
         for _ in range(nq):
             i, j = rng.randrange(len(w.protos)), rng.randrange(len(w.classes))
             programs.append(Program([snip_world(next(kk), w, i, int(rng.random() < 0.3), j, rng.random() < 0.35)], imports=[w.name]))
-        # generic calls f<i>(c, arg) with different other arguments: only where the model proves the bounds map
-        # history independent (well-founded worlds)
-        if getattr(w, "wellfounded", False):
+        # generic calls f<i>(c, arg) with different other arguments (in recursive worlds the model predicts the open
+        # class cyclicBoundsOrder: the solved type variable can list its members in another order)
+        if True:
             for _ in range(ctx.n(3, 5)):
                 i, j = rng.randrange(len(w.protos)), rng.randrange(len(w.classes))
                 programs.append(Program([snip_gcall(next(kk), w, i, j, rng.choice(["1", "'s'", "0.5", "None", "c"]), rng.randrange(3))],
@@ -1720,7 +1741,7 @@ def explain_requests(s, text, B):
 # snippet kinds whose diagnostics a Lean site function must reproduce
 MODELLED = ("kwargs", "keys", "proto", "or", "try", "defnodes", "inset")
 # the order classes still open in /repo, by the hint handed to Lean `orderClass`
-ORDER_CLASS = {"try": "tryDefNodeOrder", "defnodes": "defNodeSetOrder"}
+ORDER_CLASS = {"try": "tryDefNodeOrder", "defnodes": "defNodeSetOrder", "bounds": "cyclicBoundsOrder"}
 
 
 def answer_bit(prog, rendering):
@@ -2327,6 +2348,12 @@ def e2e(ctx, B, post, worlds, with_model, watch_sites=(), kinds=None):
                     kb = [k for k in explained if k[0] == n and k[1] == id(s) and k[2] in tb]
                     conforms = bool(ka) and bool(kb) and all(ok_text[k] for k in ka + kb)
                     cls = ("pending", "defnodes" if s.kind == "or" else s.kind, ta, tb)
+                if cls is None and with_model and s is not None and s.kind == "mode" and s.info.get("gcall") and (label, n) in hist_req:
+                    # same verdict, another text: the Lean history model must predict another bounds map in a recursive
+                    # world (D = cyclicBoundsOrder) and the difference must be order-only (Lean `orderClass`)
+                    kvh = B.kv(hist_req[(label, n)][0])
+                    if kvh.get("D") == "cyclicBoundsOrder":
+                        cls = ("pending", "bounds", ta, tb)
                 key = (s.kind if s else None, label[:4])
                 if key in seen_cand and cls is not None:
                     continue
